@@ -65,6 +65,18 @@ pub fn judge_dkg<C: Suite>(ctx: &mut Ctx, grp: &Grp<C>, run: &DkgRun<C>, pkps: &
         ctx.viol("group-key-wrong", "", d("group key != sum of constant-term commitments (with the Taproot key-path tweak where applicable)",
             json!({"got": el_hex::<C>(&first.verifying_key().to_element()), "want": el_hex::<C>(&want_key)})));
     }
+    if !C::TAPROOT {
+        let comms: std::collections::BTreeMap<_, _> = grp.ids.iter().map(|i| (*i, run.r1_pkgs[i].commitment())).collect();
+        match PublicKeyPackage::<C>::from_dkg_commitments(&comms) {
+            Ok(re) => {
+                if &re != first {
+                    ctx.viol("dkg-output-inconsistent", "recreated-public-key-package", d("PublicKeyPackage::from_dkg_commitments(all round-one commitments) != the package returned by part3", json!({})));
+                }
+            }
+            Err(e) => ctx.viol("dkg-output-inconsistent", "recreated-public-key-package", d("from_dkg_commitments failed", json!({"err": format!("{e:?}")}))),
+        }
+        ctx.count("recreations");
+    }
     for id in &grp.ids {
         let kp = &grp.kps[id];
         let x = id_sc::<C>(id);
